@@ -106,7 +106,48 @@ func init() {
 				raw("POST", "/v2/"+ledgerOf[p.v]+"/pipelines/$"+p.v+"/start", "", "")
 			}
 		}
-		sc.Clients = [][]Op{admin}
+		if r.Chance(0.15) {
+			// a targeted family: the first administrator stops the pipeline after it has exported something and starts
+			// it again, while a second one resets it at about the same time (a reset acknowledged while a start is
+			// under way must still lead to every log being exported again)
+			hdr := map[string]string{"Content-Type": "application/json"}
+			admin = admin[:2]
+			admin = append(admin, Op{ID: "a0.2", Kind: KSleep, SleepMs: 3000},
+				Op{ID: "a0.3", Kind: KRaw, Ledger: "l1", Raw: &Request{Method: "POST", Path: "/v2/l1/pipelines/$pipeline/stop", Header: hdr}},
+				Op{ID: "a0.4", Kind: KSleep, SleepMs: Pick(r, []int{1, 5, 20})},
+				Op{ID: "a0.5", Kind: KRaw, Ledger: "l1", Raw: &Request{Method: "POST", Path: "/v2/l1/pipelines/$pipeline/start", Header: hdr}})
+			sc.Clients = [][]Op{admin, {
+				{ID: "a1.0", Kind: KSleep, SleepMs: 3000 + Pick(r, []int{1, 4, 8, 15, 30})},
+				{ID: "a1.1", Kind: KRaw, Ledger: "l1", Capture: "reset", Raw: &Request{Method: "POST", Path: "/v2/l1/pipelines/$pipeline/reset", Header: hdr}},
+				{ID: "a1.2", Kind: KSleep, SleepMs: 8000},
+				{ID: "a1.3", Kind: KRaw, Ledger: "l1", Raw: &Request{Method: "POST", Path: "/v2/l1/pipelines/$pipeline/start", Header: hdr}},
+			}}
+		} else {
+			sc.Clients = [][]Op{admin}
+		}
+		if len(sc.Clients) == 1 && r.Chance(0.35) {
+			// a second administrator working on the first pipeline at the same time: stop / start / reset requests
+			// that race the first one's (and each other's answers may be refusals: already started, not found...)
+			second := []Op{{ID: "a1.0", Kind: KSleep, SleepMs: Pick(r, []int{50, 400, 3500})}}
+			for i, n := 0, 1+r.Intn(4); i < n; i++ {
+				base := "/v2/l1/pipelines/$pipeline"
+				id := fmt.Sprintf("a1.%d", len(second))
+				switch r.Intn(4) {
+				case 0:
+					second = append(second, Op{ID: id, Kind: KRaw, Ledger: "l1", Raw: &Request{Method: "POST", Path: base + "/stop", Header: map[string]string{"Content-Type": "application/json"}}})
+				case 1:
+					second = append(second, Op{ID: id, Kind: KRaw, Ledger: "l1", Raw: &Request{Method: "POST", Path: base + "/start", Header: map[string]string{"Content-Type": "application/json"}}})
+				case 2:
+					second = append(second, Op{ID: id, Kind: KRaw, Ledger: "l1", Capture: "reset", Raw: &Request{Method: "POST", Path: base + "/reset", Header: map[string]string{"Content-Type": "application/json"}}})
+				default:
+					second = append(second, Op{ID: id, Kind: KSleep, SleepMs: Pick(r, []int{5, 100, 2000})})
+				}
+			}
+			// leave the pipeline enabled at the end, whatever the two did
+			second = append(second, Op{ID: fmt.Sprintf("a1.%d", len(second)), Kind: KSleep, SleepMs: 8000},
+				Op{ID: fmt.Sprintf("a1.%d", len(second)+1), Kind: KRaw, Ledger: "l1", Raw: &Request{Method: "POST", Path: "/v2/l1/pipelines/$pipeline/start", Header: map[string]string{"Content-Type": "application/json"}}})
+			sc.Clients = append(sc.Clients, second)
+		}
 		nw := 1 + r.Intn(2)
 		for c := 1; c <= nw; c++ {
 			var ops []Op
